@@ -487,6 +487,11 @@ def rule_P_CALLER(ctx):
             for e, v in sym.guards(bi):
                 if e.startswith("discr(a1.mid_result.") and v == "1":
                     have.add(e[len("discr(a1.mid_result."):-1])
+                # the same test spelled as a (possibly cached) `slot.is_some()` / `!slot.is_none()`
+                if e.startswith("is_some(a1.mid_result.") and v == "true":
+                    have.add(e[len("is_some(a1.mid_result."):-1])
+                if e.startswith("is_none(a1.mid_result.") and v == "false":
+                    have.add(e[len("is_none(a1.mid_result."):-1])
             ctx.ob("P-CALLER", "transform_mid_result -> %s" % nm, req[nm] <= have, "callee unwraps %s, caller established Some for %s" % (sorted(req[nm]), sorted(have)),
                    "%s:%s" % (tm["span"]["file"], t["line"]))
     # no other callers
